@@ -486,11 +486,13 @@ def count_evaluations(inputs):
 
 
 # ------------------------------------------------------------- stale edits
-def stale_variant(rng, spec):
+def stale_variant(rng, spec, of_type=None):
     """an edited copy of spec (source changed, output NOT regenerated) that is still a valid
-    package; returns (spec2, description) or None"""
+    package; returns (spec2, description) or None.  of_type: change the value of a constant of that type"""
     kinds = ["value", "value", "value", "insert-blank", "swap", "unrelated", "unrelated", "rename", "new-const", "none"]
     rng.shuffle(kinds)
+    if of_type is not None:
+        kinds = ["value-of"]
     target_types = [t.tname for t in spec.targets]
     for kind in kinds:
         for _ in range(12):
@@ -515,7 +517,19 @@ def stale_variant(rng, spec):
                     f, b = rng.choice(blocks)
                     i = rng.randrange(len(b.specs))
                     sp = b.specs[i]
-                    if kind == "value":
+                    if kind == "value-of":
+                        names = {n for n, _ in spec.declared(of_type)}
+                        cands = [(bb, ii) for _, bb in blocks for ii, ss in enumerate(bb.specs)
+                                 if ss.vals and any(n in names for n in ss.names)]
+                        if not cands:
+                            break
+                        b, i = rng.choice(cands)
+                        sp = b.specs[i]
+                        j = rng.choice([jj for jj, n in enumerate(sp.names) if n in names])
+                        d = rng.choice([1, -1, 2, 3, -2, 10])
+                        sp.vals[j] = ("add", sp.vals[j], ("lit", d))
+                        desc = "%s: expression of %s changed by %+d" % (of_type, sp.names[j], d)
+                    elif kind == "value":
                         if not sp.vals:
                             continue
                         j = rng.randrange(len(sp.vals))
